@@ -1671,6 +1671,8 @@ fn merge_parquet_files(
 ) -> Result<()> {
     // Use a streaming approach: create a new merged file
     let merged_path = spill_dir.join(format!("merged_{}.parquet", partition_idx));
+    #[cfg(qe_verif)]
+    crate::verif::fault::fault("spill.merge")?;
 
     // Open readers for both files
     let file1 = File::open(existing)
@@ -1782,6 +1784,8 @@ fn write_batches_to_parquet(path: &PathBuf, batches: &[RecordBatch]) -> Result<(
     if batches.is_empty() {
         return Ok(());
     }
+    #[cfg(qe_verif)]
+    crate::verif::fault::fault("spill.write")?;
 
     let file = File::create(path).map_err(|e| {
         QueryError::Execution(format!("Failed to create parquet file {:?}: {}", path, e))
@@ -1810,6 +1814,8 @@ fn append_to_parquet(path: &PathBuf, batch: &RecordBatch) -> Result<()> {
 
     // Streaming append: create temp file, stream existing + new batch, then rename
     let temp_path = path.with_extension("parquet.tmp");
+    #[cfg(qe_verif)]
+    crate::verif::fault::fault("spill.append")?;
 
     // Get schema from existing file
     let schema = {
@@ -1855,6 +1861,8 @@ fn append_to_parquet(path: &PathBuf, batch: &RecordBatch) -> Result<()> {
 
 /// Read batches from a Parquet file
 fn read_parquet(path: &PathBuf) -> Result<Vec<RecordBatch>> {
+    #[cfg(qe_verif)]
+    crate::verif::fault::fault("spill.read")?;
     let file = File::open(path).map_err(|e| {
         QueryError::Execution(format!("Failed to open parquet file {:?}: {}", path, e))
     })?;
